@@ -349,6 +349,10 @@ def in_context(ctx, sig):
         return [op("repeat", actions={"a": [sig, draw(g("Custom", elem=g("Int8"), body=[], fresh=True), "c")]})]
     if ctx == "cleanup_skip_after":
         return [op("cleanup", body=[op("skip")]), sig]
+    if ctx == "cleanup_after_skipping_cleanup":   # the cleanup that runs first skips the test case, one that runs after it fails
+        return [op("cleanup", body=[sig]), op("cleanup", body=[op("skip")]), draw(g("Bool"), "b")]
+    if ctx == "custom_cleanup_after_skipping_cleanup":
+        return [draw(g("Custom", elem=g("Int8"), body=[op("cleanup", body=[sig]), op("cleanup", body=[op("skip")])], fresh=True), "c")]
     if ctx == "custom_cleanup_skip_after":   # inside a Custom function: a cleanup registered there skips, then the function fails
         return [draw(g("Custom", elem=g("Int8"), body=[op("cleanup", body=[op("skip")]), sig], fresh=True), "c")]
     if ctx == "action_cleanup_skip_after":
@@ -367,7 +371,8 @@ def in_context(ctx, sig):
 
 CONTEXTS = ["body", "body_skip", "cleanup", "cleanup_then_skip", "custom", "custom_retry", "custom_cleanup", "custom_skip",
             "action", "inv0", "inv_after", "goroutine", "custom_in_action", "cleanup_skip_after", "then_custom", "action_then_custom",
-            "recovered", "action_recovered", "custom_recovered", "cleanup_recovered", "custom_cleanup_skip_after", "action_cleanup_skip_after"]
+            "recovered", "action_recovered", "custom_recovered", "cleanup_recovered", "custom_cleanup_skip_after", "action_cleanup_skip_after",
+            "cleanup_after_skipping_cleanup", "custom_cleanup_after_skipping_cleanup"]
 POSITIONS = ["first", "middle", "last", "after_skips"]
 
 
@@ -485,6 +490,13 @@ def c11(tier, seed):
         default = BEHAVIOURS["XC"] + BEHAVIOURS["AL"] if ("XC" in sq or "AL" in sq or "CS" in sq or "GX" in sq) else [draw(g("Bool"), "d")]
         out.append(scenario("c11-%s-%d" % ("_".join(sq), i), {"keyed": True, "cases": cases, "default": default}, fl,
                             tag={"seq": list(sq)}))
+    # the test case reported as the falsifying one is the persisted failure that was replayed, not the (passing / unusable) file named with -rapid.failfile
+    for i in range(3 if tier == "quick" else 24):
+        path = "elsewhere/other.fail"
+        text = [failfile_text([0] * 12), failfile_text([9, 9], version="v0.0.1"), None][i % 3]
+        runs = [{}, {"files": [{"path": path, "text": text}] if text else [], "flags": {"failfile": path}, "expect": "replay_prev"}]
+        out.append(scenario("c11-blamed-file-%d" % i, {"body": t_threshold("Int64", 1000)}, {"checks": 100, "seed": rng.randrange(1, 1 << 64)},
+                            runs=runs, name="TestBlamedFile", tag={"seq": ["persisted failure + -rapid.failfile naming another file"]}))
     return out + random_scripts("c11", tier, seed, 50, 1500, flags={"shrinktime": "0s"})
 
 
